@@ -405,6 +405,70 @@ static void fancy_scenario (std::size_t pre)
   if (g_fancy_live != 0) { fail ("fancy-pointer allocator: " + std::to_string (g_fancy_live) + " block(s) not returned"); g_fancy_live = 0; }
 }
 
+// an allocator with its OWN construct / destroy (an allocator-aware container must route every element construction and
+// destruction through them — also for trivially copyable element types, where the header otherwise uses memcpy and skips
+// destructors): the hooks count, so at every quiescent point  constructed - destroyed == number of live elements
+static long g_hook_constructed = 0, g_hook_destroyed = 0, g_hook_blocks = 0;
+template <typename T>
+struct hook_alloc
+{
+  typedef T value_type;
+  hook_alloc () noexcept { }
+  template <typename U> hook_alloc (const hook_alloc<U>&) noexcept { }
+  T *allocate (std::size_t n) { ++g_hook_blocks; return static_cast<T *> (::operator new (n * sizeof (T))); }
+  void deallocate (T *p, std::size_t) noexcept { --g_hook_blocks; ::operator delete (p); }
+  template <typename U, typename... Args> void construct (U *p, Args&&... args) { ++g_hook_constructed; ::new (static_cast<void *> (p)) U (std::forward<Args> (args)...); }
+  template <typename U> void destroy (U *p) { ++g_hook_destroyed; p->~U (); }
+};
+template <typename T, typename U> bool operator== (const hook_alloc<T>&, const hook_alloc<U>&) noexcept { return true; }
+template <typename T, typename U> bool operator!= (const hook_alloc<T>&, const hook_alloc<U>&) noexcept { return false; }
+
+template <typename V>
+static void hook_check (const V& v, const char *what, unsigned n)
+{
+  ++g_checks;
+  if (g_hook_constructed - g_hook_destroyed != static_cast<long> (v.size ()))
+    fail (std::string ("allocator construct / destroy hooks bypassed after ") + what + " (N=" + std::to_string (n) + "): constructed - destroyed = "
+          + std::to_string (g_hook_constructed - g_hook_destroyed) + " but size () = " + std::to_string (v.size ()));
+}
+
+template <typename T, unsigned N>
+static void hook_scenario (std::size_t pre)
+{
+  typedef gch::small_vector<T, N, hook_alloc<T>> V;
+  g_hook_constructed = g_hook_destroyed = 0;
+  const T a = mk<T> (1), b = mk<T> (2);
+  {
+    V v;
+    for (std::size_t i = 0; i < pre; ++i) { v.push_back (mk<T> (static_cast<int> (30 + i))); hook_check (v, "push_back", N); }
+    v.insert (v.begin () + static_cast<std::ptrdiff_t> (v.size () / 2), a); hook_check (v, "insert (pos, x)", N);
+    v.insert (v.begin (), static_cast<typename V::size_type> (3), b); hook_check (v, "insert (pos, n, x)", N);
+    { std::vector<T> r; r.push_back (a); r.push_back (b); v.insert (v.begin () + 1, r.begin (), r.end ()); hook_check (v, "insert (pos, first, last)", N);
+      v.append (r.begin (), r.end ()); hook_check (v, "append (first, last)", N); }
+    v.erase (v.begin ()); hook_check (v, "erase (pos)", N);
+    if (v.size () > 2) { v.erase (v.begin () + 1, v.end () - 1); hook_check (v, "erase (first, last)", N); }
+    v.resize (static_cast<typename V::size_type> (v.size () + 4)); hook_check (v, "resize (n)", N);
+    v.resize (static_cast<typename V::size_type> (v.size () + 2), a); hook_check (v, "resize (n, x)", N);
+    v.reserve (static_cast<typename V::size_type> (3 * v.size () + 1)); hook_check (v, "reserve", N);
+    v.shrink_to_fit (); hook_check (v, "shrink_to_fit", N);
+    v.pop_back (); hook_check (v, "pop_back", N);
+    v.assign (static_cast<typename V::size_type> (pre + 1), b); hook_check (v, "assign (n, x)", N);
+    { std::vector<T> r (pre, a); v.assign (r.begin (), r.end ()); hook_check (v, "assign (first, last)", N); }
+    {
+      V w (v);
+      if (g_hook_constructed - g_hook_destroyed != static_cast<long> (v.size () + w.size ())) fail ("allocator hooks bypassed by copy construction (N=" + std::to_string (N) + ")");
+      V x (std::move (w));
+      V y; y = v; V z; z.push_back (a); z = std::move (y); z.swap (x);
+      if (g_hook_constructed - g_hook_destroyed != static_cast<long> (v.size () + w.size () + x.size () + y.size () + z.size ()))
+        fail ("allocator hooks bypassed by copy / move assignment or swap (N=" + std::to_string (N) + ")");
+    }
+    hook_check (v, "destruction of copies", N);
+    v.clear (); hook_check (v, "clear", N);
+  }
+  if (g_hook_constructed != g_hook_destroyed) fail ("allocator hooks: " + std::to_string (g_hook_constructed) + " constructions but " + std::to_string (g_hook_destroyed) + " destructions (N=" + std::to_string (N) + ")");
+  if (g_hook_blocks != 0) { fail ("allocator with hooks: blocks not returned"); g_hook_blocks = 0; }
+}
+
 // an element type WITHOUT assignment operators (std::vector accepts it for construction, push_back / emplace_back,
 // reserve, resize, pop_back, clear and assign from single-pass iterators): the header has a dedicated
 // assign_with_range overload for it ("if not assignable then destroy all elements and append")
@@ -484,6 +548,7 @@ int main (void)
   for (std::size_t pre = 0; pre <= 7; pre += 1)
   {
     fancy_scenario<int, 0> (pre); fancy_scenario<int, 3> (pre); fancy_scenario<std::string, 0> (pre); fancy_scenario<std::string, 4> (pre);
+    hook_scenario<int, 0> (pre); hook_scenario<int, 3> (pre); hook_scenario<std::string, 0> (pre); hook_scenario<std::string, 4> (pre);
   }
   iterator_scenarios<int, 0> (); iterator_scenarios<int, 3> (); iterator_scenarios<int, 8> ();
   iterator_scenarios<std::string, 0> (); iterator_scenarios<std::string, 2> (); iterator_scenarios<std::string, 5> ();
